@@ -624,7 +624,10 @@ func (ldns) Run(c Case) Result {
 			if name == "rt" && first == "ok" && wf && scls == "err" {
 				res.Oracle = append(res.Oracle, n6oracle("C06:serialize-error", "DNS SerializeTo fails on a decoded well-formed value: %s", a[0]))
 			}
-			if name == "rt" && first == "ok" && scls == "ok" {
+			// C06 is about values in the range of the wire format (ldnsWellFormed = the hypothesis dns_encodable of
+			// C06_dns_decoded_roundtrip); e.g. an AAAA record decoded with 4 address bytes serializes (as the
+			// IPv4-mapped address, net.IP.To16) but is not such a value.  Model and code are compared on all of them.
+			if name == "rt" && first == "ok" && scls == "ok" && wf {
 				tags["roundtrip-checked"] = true
 				if string(out[len(out)-len(payload):]) != string(payload) {
 					res.Oracle = append(res.Oracle, n6oracle("C06:roundtrip", "DNS SerializeTo changed the payload"))
